@@ -363,9 +363,10 @@ fn classify(c: &SqlCase, _ev: &Ev, reference: &crate::refsql::RefAnswer, cfg: &E
                     hit = true
                 }
             });
-            if hit {
-                return Some(KF_MORSEL_TYPE);
-            }
+            // (finding (5) is FIXED in /repo (b457f09): its signature no longer classifies
+            // anything — a recurrence falls through and is reported as a violation, and it must
+            // not shadow the open finding (4) below, which the same statement may also meet)
+            let _ = (hit, KF_MORSEL_TYPE);
         }
         // the same state also has the all-NULL-key defect of (1): compare the other groups only
         let all_null = |r: &Vec<Value>| nkeys > 0 && r.len() >= nkeys && r[..nkeys].iter().all(|v| v.is_null());
@@ -383,9 +384,7 @@ fn classify(c: &SqlCase, _ev: &Ev, reference: &crate::refsql::RefAnswer, cfg: &E
                 }
                 _ => false,
             };
-            if !diffs.is_empty() && diffs.iter().all(|(i, _r, g)| qualified_int_sum(*i) && g.is_null()) {
-                return Some(KF_MORSEL_TYPE);
-            }
+            let _ = &qualified_int_sum;
             let zero_or_nan = |v: &Value| match v {
                 Value::Int(0) => true,
                 Value::Double(x) => *x == 0.0 || x.is_nan(),
